@@ -6,6 +6,7 @@ Reference: the file's own lines (uniform regime) and one reference import; a rec
 """
 import gzip
 import os
+import random
 from collections import Counter
 
 from gvmon import dbdump
@@ -20,7 +21,8 @@ RULE = ("uniform-regime annotations of 0..25 lines in the 48 dialect points; eac
         "recording transform (modify / skip by falsy values) and inspect() with random look_for subsets and limits in "
         "{None,1,n-1,n,n+3}; non-trivial = n >= 3; distinct by (annotation text, form, checklines class)")
 REQUIRED = ["sparse-regime form comparisons", "form sequences compared", "databases compared", "one-shot pulls logged", "transform calls recorded",
-            "inspect results compared", "in-place edits of features with identical attribute columns compared", "transforms that raise: outcomes observed"] + ["form=" + f for f in FORMS]
+            "inspect results compared", "in-place edits of features with identical attribute columns compared", "transforms that raise: outcomes observed", "sources that raise: outcomes observed",
+            "sources that raise inside the look-ahead window", "large look-ahead windows: one-shot forms compared with the path form"] + ["form=" + f for f in FORMS]
 ASSUMPTIONS = [
     "annotations are written in the uniform regime, so every window infers the same dialect and all forms are comparable",
     "for GTF annotations the FeatureDB form is a database built without inference (its content is then the plain annotation)",
@@ -107,6 +109,10 @@ def execute(ctx, case):
             aliasing(ctx, case)
         elif kind == "transform_raises":
             transform_raises(ctx, case)
+        elif kind == "source_raises":
+            source_raises(ctx, case)
+        elif kind == "bigwindow":
+            bigwindow(ctx, case)
     finally:
         for v in contracts.drain():
             ctx.violation(case, v)
@@ -422,6 +428,125 @@ def transform_raises(ctx, case):
         cleanup(paths)
 
 
+def source_raises(ctx, case):
+    """A one-shot source that fails while producing item k (inside or beyond the look-ahead window): the failure surfaces
+    as an exception - construction, iteration or import never just end as if the data had run out."""
+    import gffutils
+    from gffutils.feature import feature_from_line
+    from gffutils.iterators import DataIterator
+
+    text, lines, paths = prepare_files(ctx, case)
+    k = case["k"]
+    try:
+        feats = [feature_from_line(l) for l in lines]
+
+        class Broken(Exception):
+            pass
+
+        def gen():
+            for i, f in enumerate(feats):
+                if i == k:
+                    raise Broken("harness: the source fails at item %d" % k)
+                yield f
+
+        class It(object):
+            def __init__(self):
+                self.i = 0
+
+            def __iter__(self):
+                return self
+
+            def __next__(self):
+                if self.i == k:
+                    raise Broken("harness: the source fails at item %d" % k)
+                if self.i >= len(feats):
+                    raise StopIteration
+                self.i += 1
+                return feats[self.i - 1]
+
+        def lazy():
+            # the usual way such a failure comes about: lines parsed lazily, one of them malformed
+            return (feature_from_line(l if i != k else l.replace("\t", "\tNOT-A-NUMBER", 4).replace("\tNOT-A-NUMBER", "\t", 3))
+                    for i, l in enumerate(lines))
+        for how, make in (("generator", gen), ("iterator object", It), ("lazy parse", lazy)):
+            for target in ("iterate", "create_db"):
+                raised, got = None, None
+                try:
+                    if target == "iterate":
+                        got = len(list(DataIterator(make(), checklines=case["checklines"])))
+                    else:
+                        db = gffutils.create_db(make(), ":memory:", checklines=case["checklines"])
+                        got = db.count_features_of_type()
+                        db.conn.close()
+                except BaseException as ex:
+                    raised = ex
+                ctx.mon("sources that raise: outcomes observed")
+                if k <= case["checklines"]:
+                    ctx.mon("sources that raise inside the look-ahead window")
+                if raised is None:
+                    ctx.violation(case, {"why": "a one-shot source failed at item %d of %d (checklines %d) but %s ended normally with %r features"
+                                                % (k, len(lines), case["checklines"], target, got), "source": how, "text": text})
+                    return
+                if target == "iterate" and how != "lazy parse" and not isinstance(raised, Broken):
+                    chain, e = [], raised
+                    while e is not None and len(chain) < 6:
+                        chain.append(e)
+                        e = e.__cause__ or e.__context__
+                    if not any(isinstance(x, Broken) for x in chain):
+                        ctx.violation(case, {"why": "the source's own exception was replaced by %r" % (raised,), "source": how, "k": k,
+                                             "checklines": case["checklines"]})
+                        return
+    finally:
+        cleanup(paths)
+
+
+def bigwindow(ctx, case):
+    """checklines larger than 1000 on an annotation whose spelling changes after record ~1000: every input form looks at
+    the same window, so all forms report the same dialect and yield the same printed features."""
+    import gffutils
+    from gffutils.iterators import DataIterator
+
+    D, D2 = case["D"], case["D2"]
+    rng = random.Random(case["seed"])
+    recs = F.uniform_records(rng, D, case["n1"], ids="unique", coords=True)
+    recs2 = F.uniform_records(rng, D2, case["n2"], ids="unique", coords=True)
+    for i, r in enumerate(recs2):
+        for kv in r["attrs"]:
+            if kv[0] == "ID":
+                kv[1] = ["second%d" % i]
+    text = F.text_of([{"t": "feat", "rec": r} for r in recs], D) + F.text_of([{"t": "feat", "rec": r} for r in recs2], D2)
+    src = ctx.tmp(".big.gff")
+    with open(src, "w", encoding="utf-8", newline="") as fh:
+        fh.write(text)
+    try:
+        ck = case["checklines"]
+        ref = DataIterator(src, checklines=ck)
+        ref_lines = [str(f) for f in ref]
+        base = list(DataIterator(src, checklines=ck))
+        for how in ("generator", "iter(list)", "map", "DataIterator over a generator"):
+            if how == "generator":
+                data = (f for f in base)
+            elif how == "iter(list)":
+                data = iter(list(base))
+            elif how == "map":
+                data = map(lambda f: f, base)
+            else:
+                data = DataIterator((f for f in base), checklines=ck)
+            it = DataIterator(data, checklines=ck)
+            got = [str(f) for f in it]
+            ctx.mon("large look-ahead windows: one-shot forms compared with the path form")
+            d1 = dict(it.dialect); d0 = dict(ref.dialect)
+            if d1 != d0 or got != ref_lines:
+                k = next((j for j in range(min(len(got), len(ref_lines))) if got[j] != ref_lines[j]), None)
+                ctx.violation(case, {"why": "with checklines=%d the %s form does not agree with the path form" % (ck, how),
+                                     "dialect_differs": {x: [d0.get(x), d1.get(x)] for x in d0 if d0.get(x) != d1.get(x) and x != "order"},
+                                     "order_differs": d0.get("order") != d1.get("order"), "first_differing_feature": k,
+                                     "n": [len(ref_lines), len(got)]})
+                return
+    finally:
+        os.unlink(src)
+
+
 def inspect_case(ctx, case):
     import gffutils
     from gffutils import inspect as I
@@ -543,6 +668,22 @@ def run(ctx):
                 "checklines": rng.choice([0, 1, 2, 10, n + 2]), "forms": rng.sample([f for f in FORMS if f != "FeatureDB"], 3)}
         execute(ctx, case)
         ctx.case(("transform_raises", F.text_of(items, D), case["k"], case["exc"], case["checklines"], case["forms"]), n >= 3, cls="transform raises")
+    for _ in range(ctx.budget(60, 3000)):
+        D, items = annotation(rng)
+        n = sum(1 for it in items if it["t"] == "feat")
+        if n < 1:
+            continue
+        ck = rng.choice([0, 1, 2, 10, n + 2])
+        case = {"kind": "source_raises", "D": D, "items": [it for it in items if it["t"] == "feat"], "k": rng.randrange(0, n), "checklines": ck}
+        execute(ctx, case)
+        ctx.case(("source_raises", F.text_of(case["items"], D), case["k"], ck), n >= 3, cls="source raises")
+    if ctx.shard == 0 or ctx.tier == "thorough":
+        D = rng.choice([p for p in M.points() if not p["trailing"]])
+        D2 = dict(D, trailing=True)
+        case = {"kind": "bigwindow", "D": D, "D2": D2, "n1": rng.choice([1001, 1002, 1100]), "n2": rng.choice([1300, 1500]),
+                "checklines": rng.choice([3000, 5000]), "seed": rng.randrange(10 ** 6)}
+        execute(ctx, case)
+        ctx.case(("bigwindow", case["n1"], case["n2"], case["checklines"], case["seed"]), True, cls="large look-ahead window")
     import copy
     for _ in range(ctx.budget(100, 5000)):
         D, items = annotation(rng)
